@@ -2,6 +2,7 @@ package catalog
 
 import (
 	"encoding/json"
+	"fmt"
 	"sync"
 
 	"github.com/jsightapi/jsight-schema-core/bytes"
@@ -30,6 +31,15 @@ func (e ExchangeRegexSchema) Example() ([]byte, error) {
 		return e.RSchema.Example()
 	}
 	e.example.once.Do(func() {
+		// The generator panics for a regular expression it cannot make an example
+		// of (/[^\x00-\x7F]/: "invalid argument to Intn"). A panic would leave the
+		// Once done with nothing stored: the first call would panic, every later
+		// one would silently return no example.
+		defer func() {
+			if r := recover(); r != nil {
+				e.example.value, e.example.err = nil, fmt.Errorf("cannot generate an example of the regular expression: %v", r)
+			}
+		}()
 		e.example.value, e.example.err = e.RSchema.Example()
 	})
 	return e.example.value, e.example.err
